@@ -101,16 +101,18 @@ Definition push_frags (ep : N) (st : state) (fs : list frag) : state * bool :=
 
 (* Push: (state, (isHandshake, isRetransmit, err <> nil)) *)
 Definition push (st : state) (r : record) : state * (bool * bool * bool) :=
-  if (max_size <=? size st + record_size r) || (max_count <=? count st)
-  then (st, (false, false, true))                               (* ErrFragmentBufferOverflow *)
+  if max_size <=? record_size r then (st, (false, false, true))      (* len(buf) >= max: overflow *)
   else
     match r with
-    | RBad _ => (st, (false, false, true))
-    | ROther _ => (st, (false, false, false))
+    | RBad _ => (st, (false, false, true))                      (* record header does not parse *)
+    | ROther _ => (st, (false, false, false))                   (* not a handshake: limits not applied *)
     | RHs ep fs tail =>
-        let (st', retr) := push_frags ep st fs in
-        if tail =? 0 then (st', (true, retr, false))
-        else (st', (false, false, true))                        (* fragments before the bad tail stay stored *)
+        if (max_size <=? size st + record_size r) || (max_count <=? count st)
+        then (st, (false, false, true))                         (* ErrFragmentBufferOverflow *)
+        else
+          let (st', retr) := push_frags ep st fs in
+          if tail =? 0 then (st', (true, retr, false))
+          else (st', (false, false, true))                      (* fragments before the bad tail stay stored *)
     end.
 
 (* the loop of Pop: `for i := 0; i < len(fragmentByOffset) && targetOffset < handshakeLength; i++` *)
